@@ -530,6 +530,19 @@ class G:
             self.emit("dense %s" % x)
         self.emit("new e2")
         self.emit("dense e2")
+        # a trailing partial chunk that is dense (more than 4096 bits: becomes a bitmap container), with and without spare capacity
+        for n, copy in [(1500, 0), (1500, 1), (1025 + 70, 0), (500, 0), (2048 + 100, 0)]:
+            y = self.fresh()
+            full = n - (n // 1024) * 1024
+            lead = ["%x*%d" % (r.getrandbits(64), 1024)] * (n // 1024)
+            tail = ["ffffffffffffffff*%d" % full] if r.random() < 0.5 else ["%x" % (r.getrandbits(64) | 1) for _ in range(full)]
+            self.emit("fromdense %s %d %s spare" % (y, copy, ".".join(lead + tail)))
+            self.emit("card %s" % y)
+            self.emit("wf %s" % y)
+            self.emit("toarr %s" % y)
+            self.emit("add %s %d" % (y, n * 64 - 1))
+            self.emit("densechk")
+            self.count("dense:spare-capacity")
         for _ in range(nb):
             # word slices: lengths not multiple of 1024, dense and sparse chunks, trailing partial chunk
             n = r.choice([0, 1, 2, 63, 64, 1023, 1024, 1025, 1500, 2048, 2049, 3000])
@@ -550,7 +563,9 @@ class G:
             y = self.fresh()
             copy = r.randrange(2)
             cmd = "fromdense %s %d" % (y, copy) if r.random() < 0.8 else "frombitset %s" % y
-            self.emit("%s %s" % (cmd, ".".join(ws) if ws else ""))
+            # `spare`: the words are the front part of a larger buffer of the caller's whose rest is not zero (len < cap)
+            spare = " spare" if cmd.startswith("fromdense") and ws and r.random() < 0.5 else ""
+            self.emit("%s %s%s" % (cmd, ".".join(ws) if ws else "", spare))
             self.emit("wf %s" % y)
             # mutate the bitmap in chunks that may share the caller's words, then check the words are untouched
             for _ in range(4):
